@@ -326,3 +326,46 @@ M('C19', 'benign: reorder elif branches of _eval_ast', 'expression_v1.py',
   "    elif op == 'jump':\n        array, = args\n        return function.jump(array)\n    elif op == 'mean':\n        array, = args\n        return function.mean(array)",
   "    elif op == 'mean':\n        array, = args\n        return function.mean(array)\n    elif op == 'jump':\n        array, = args\n        return function.jump(array)", expect='silent')
 M('C19', 'benign: inner method loses @highlight (still converted by the caller)', 'expression_v1.py', "    @highlight\n    def parse_term(self, omitted_indices):", "    def parse_term(self, omitted_indices):", expect='silent')
+
+# ---------------------------------------------------------------- C01
+M('C01', 'revert F5: Choose._takediag via public takediag', 'evaluable.py',
+  "        return Choose(_takediag(self.index, axis, rmaxis), Transpose.to_end(_takediag(self.choices, axis, rmaxis), -2))",
+  "        return Choose(takediag(self.index, axis, rmaxis), takediag(self.choices, axis, rmaxis))", rule='R01.2')
+M('C01', 'Legendre._take through public take', 'evaluable.py', "            return Legendre(_take(self.x, index, axis), self.degree)", "            return Legendre(take(self.x, index, axis), self.degree)", rule='R01.2')
+M('C01', 'extra parameter on InsertAxis._takediag', 'evaluable.py', "    def _takediag(self, axis1, axis2):\n        assert axis1 < axis2\n        if axis2 == self.ndim-1:\n            return Transpose.to_end(self.func, axis1)",
+  "    def _takediag(self, axis1, axis2, keep):\n        assert axis1 < axis2\n        if axis2 == self.ndim-1:\n            return Transpose.to_end(self.func, axis1)", rule='R01.1')
+M('C01', 'call site passes too few arguments', 'evaluable.py', "        trytakediag = self.func._takediag(orig1, orig2)", "        trytakediag = self.func._takediag(orig1)", rule='R01.1')
+M('C01', 'protocol default gains a parameter', 'evaluable.py', "    _sum = lambda self, axis: None", "    _sum = lambda self, axis, keepdims: None", rule='R01.1')
+M('C01', 'shape/dtype assertion of the driver removed', 'evaluable.py',
+  "        if isinstance(obj, Array):\n            assert isinstance(retval, Array) and not _any_certainly_different(retval.shape, obj.shape) and retval.dtype == obj.dtype, '{} --simplify--> {}'.format(obj, retval)\n", "", rule='R01.4')
+M('C01', 'driver assertion ignores dtype', 'evaluable.py', "not _any_certainly_different(retval.shape, obj.shape) and retval.dtype == obj.dtype, '{} --simplify--> {}'", "not _any_certainly_different(retval.shape, obj.shape), '{} --simplify--> {}'", rule='R01.4')
+M('C01', 'loop detection removed', '_util.py', "                elif obj in ostack:\n                    raise Exception(f'{type(obj).__name__}.{self.name} is caught in a loop')\n", "", rule='R01.4')
+M('C01', 'benign: rename axis parameters of a rule', 'evaluable.py', "    def _takediag(self, axis1, axis2):\n        return product(_takediag(self.func, axis1, axis2), self.ndim-2)", "    def _takediag(self, ax1, ax2):\n        return product(_takediag(self.func, ax1, ax2), self.ndim-2)", expect='silent')
+M('C01', 'benign: constant-axis takediag stays', 'evaluable.py', "            return takediag(simple, -3, -2)", "            return takediag(simple, -3, -2)  # constants, not a pass-through", expect='silent')
+
+# ---------------------------------------------------------------- C04
+M('C04', 'ArcCos.deriv loses its minus', 'evaluable.py', "    deriv = lambda x: -reciprocal(sqrt(astype(1, x.dtype)-x**astype(2, x.dtype))),", "    deriv = lambda x: reciprocal(sqrt(astype(1, x.dtype)-x**astype(2, x.dtype))),\n    _arccos_marker = None", rule='R04.1')
+M('C04', 'Tan.deriv exponent -2 -> 2', 'evaluable.py', "    deriv = lambda x: Cos(x)**astype(-2, x.dtype),", "    deriv = lambda x: Cos(x)**astype(2, x.dtype),", rule='R04.1')
+M('C04', 'ArcTan.deriv uses 1 - x^2', 'evaluable.py', "    deriv = lambda x: reciprocal(astype(1, x.dtype)+x**astype(2, x.dtype)),", "    deriv = lambda x: reciprocal(astype(1, x.dtype)-x**astype(2, x.dtype)),\n    _arctan_marker = None", rule='R04.1')
+M('C04', 'CosH.deriv = CosH', 'evaluable.py', "    deriv = lambda x: SinH(x),", "    deriv = lambda x: CosH(x),", rule='R04.1')
+M('C04', 'ArcTan2 partials swapped', 'evaluable.py', "    deriv = lambda x, y: y / (x**astype(2, x.dtype) + y**astype(2, x.dtype)), lambda x, y: -x / (x**astype(2, x.dtype) + y**astype(2, x.dtype))",
+  "    deriv = lambda x, y: -x / (x**astype(2, x.dtype) + y**astype(2, x.dtype)), lambda x, y: y / (x**astype(2, x.dtype) + y**astype(2, x.dtype))", rule='R04.1')
+M('C04', 'Minimum partials swapped', 'evaluable.py', "    deriv = lambda x, y: .5 - .5 * Sign(x - y), lambda x, y: .5 + .5 * Sign(x - y)\n\n    def _compile_expression(self, x, y):\n        return _pyast.Variable('numpy').get_attr('minimum').call(x, y)",
+  "    deriv = lambda x, y: .5 + .5 * Sign(x - y), lambda x, y: .5 - .5 * Sign(x - y)\n\n    def _compile_expression(self, x, y):\n        return _pyast.Variable('numpy').get_attr('minimum').call(x, y)", rule='R04.1')
+M('C04', 'Sinc derivative keeps n', 'evaluable.py', "    deriv = lambda x, n: Sinc(x, n=n+1),", "    deriv = lambda x, n: Sinc(x, n=n),", rule='R04.1')
+M('C04', 'Sin emits numpy.cos', 'evaluable.py', "        return _pyast.Variable('numpy').get_attr('sin').call(x)", "        return _pyast.Variable('numpy').get_attr('cos').call(x)", rule='R04.1')
+M('C04', 'TanH.deriv = 1 + tanh^2', 'evaluable.py', "    deriv = lambda x: astype(1, x.dtype) - TanH(x)**astype(2, x.dtype),", "    deriv = lambda x: astype(1, x.dtype) + TanH(x)**astype(2, x.dtype),", rule='R04.1')
+M('C04', 'Determinant einsum Aji -> Aij', 'evaluable.py', "        return einsum('A,Aji,AijB->AB', self, inverse(self.func), derivative(self.func, var, seen))", "        return einsum('A,Aij,AijB->AB', self, inverse(self.func), derivative(self.func, var, seen))", rule='R04.2')
+M('C04', 'Inverse derivative loses its sign', 'evaluable.py', "        return -einsum('Aij,AjkB,Akl->AilB', self, derivative(self.func, var, seen), self)", "        return einsum('Aij,AjkB,Akl->AilB', self, derivative(self.func, var, seen), self)", rule='R04.2')
+M('C04', 'Inverse derivative contracts the wrong index', 'evaluable.py', "'Aij,AjkB,Akl->AilB'", "'Aij,AjkB,Alk->AilB'", rule='R04.2')
+M('C04', 'product rule differentiates the same factor twice', 'evaluable.py', "            + einsum('A,AB->AB', func2, derivative(func1, var, seen))", "            + einsum('A,AB->AB', func2, derivative(func2, var, seen))", rule='R04.2')
+M('C04', 'Power: log term uses power instead of self', 'evaluable.py', "            + einsum('A,A,AB->AB', ln(self.func), self, derivative(self.power, var, seen))", "            + einsum('A,A,AB->AB', ln(self.func), self.power, derivative(self.power, var, seen))", rule='R04.2')
+M('C04', 'Sum derivative sums the wrong axis', 'evaluable.py', "        return sum(derivative(self.func, var, seen), self.ndim)", "        return sum(derivative(self.func, var, seen), self.ndim-1)", rule='R04.4')
+M('C04', 'TakeDiag derivative axes shifted', 'evaluable.py', "        return takediag(derivative(self.func, var, seen), self.ndim-1, self.ndim)", "        return takediag(derivative(self.func, var, seen), self.ndim-2, self.ndim-1)", rule='R04.4')
+M('C04', 'WithDerivative returns stored derivative always', 'evaluable.py', "        if var == self.var:\n            return self.derivative\n        else:\n            return derivative(self.func, var, seen)", "        return self.derivative", rule='R04.3')
+M('C04', 'driver memo dropped', 'evaluable.py', "        result = func._derivative(var, seen)\n        seen[func] = result", "        result = func._derivative(var, seen)", rule='R04.3')
+M('C04', 'benign: reciprocal(x) <-> x**-1', 'evaluable.py', "    deriv = lambda x: reciprocal(x),", "    deriv = lambda x: x**astype(-1, x.dtype),", expect='silent')
+M('C04', 'benign: rename einsum letters', 'evaluable.py', "        return -einsum('Aij,AjkB,Akl->AilB', self, derivative(self.func, var, seen), self)", "        return -einsum('Apq,AqrB,Ars->ApsB', self, derivative(self.func, var, seen), self)", expect='silent')
+M('C04', 'benign: reorder einsum operands', 'evaluable.py', "        return einsum('A,Aji,AijB->AB', self, inverse(self.func), derivative(self.func, var, seen))", "        return einsum('Aji,A,AijB->AB', inverse(self.func), self, derivative(self.func, var, seen))", expect='silent')
+M('C04', 'benign: axis written via func.ndim', 'evaluable.py', "        return sum(derivative(self.func, var, seen), self.ndim)", "        return sum(derivative(self.func, var, seen), self.func.ndim-1)", expect='silent')
+M('C04', 'benign: tan derivative as 1 + tan^2', 'evaluable.py', "    deriv = lambda x: Cos(x)**astype(-2, x.dtype),", "    deriv = lambda x: astype(1, x.dtype) + Tan(x)**astype(2, x.dtype),", expect='silent')
